@@ -9,6 +9,8 @@ import sys
 ROOT = os.path.dirname(os.path.dirname(os.path.abspath(__file__)))
 sys.path.insert(0, os.path.join(ROOT, 'harness'))
 
+import tie_texts
+
 NA_REASON = {}   # property id -> reason, for properties deliberately not claimed
 # checks the integrator has run green on the unchanged tree (seeds 0-2) and reviewed
 CLAIMED = ['C%02d' % i for i in range(1, 20)]
@@ -33,9 +35,9 @@ for i in range(1, 20):
         'evidence_file': 'evidence/%s.json' % pid,
         'replay_cmd_template': './check %s --replay {path}' % pid,
         'engine': 'lean4-proof+correspondence',
-        'level_claimed': {'category': 'proof', 'text': m['text'], 'design_ref': m.get('design_ref', 'DESIGN.md section 3, ' + pid)},
+        'level_claimed': {'category': 'proof', 'text': m['text'] + (tie_texts.COMMON + tie_texts.TIE[pid] if pid in tie_texts.TIE else ''), 'design_ref': m.get('design_ref', 'DESIGN.md section 3, ' + pid)},
         'level_note': m['note'],
-        'technique': m['technique'],
+        'technique': m['technique'] + (' + source tie: python function bodies re-translated into Lean on every run and proved equal to the model functions' if pid in tie_texts.TIE else ''),
     })
 
 manifest = {
@@ -54,7 +56,9 @@ manifest = {
         'name': 'lean4-proof+correspondence', 'path': 'lean/ + harness/',
         'serves_properties': [c['property_id'] for c in checks],
         'kind_free_text': 'Lean 4 theorems about hand-written executable models (lean/Cellml), tables regenerated from '
-                          '/repo source text on every run (harness/translate_tables.py), models tied to the code by a '
+                          '/repo source text on every run (harness/translate_tables.py), function bodies of the modelled code re-translated '
+                          'into Lean on every run (harness/translate_code.py) and proved equal to the model functions '
+                          '(lean/Cellml/Tie), models also tied to the code by a '
                           'seeded differential correspondence check through a compiled model driver; property oracles '
                           'on the implementation search for failing inputs',
     }],
